@@ -53,6 +53,7 @@ def jobs(tier):
     grouped = []
     for i in range(0, len(js), 6):
         grouped.append({"name": f"lp-group-{i // 6}", "kind": "group", "jobs": js[i:i + 6]})
+    grouped += [{"name": f"conic-{n}", "kind": "conic", "model": n} for n in CONIC]
     return grouped
 
 
@@ -147,6 +148,340 @@ def lp_dual(nv, m, kinds):
     return out
 
 
+# ------------------------------------------------------------------------------------------
+# conic programs produced by the real primal do_math (SOC atoms, supports of uncertainty sets)
+# ------------------------------------------------------------------------------------------
+
+def _signs(P0):
+    return [p_ite(p_eq(u, 0), -1, 1) if isinstance(u, SymReal) else (-1 if (not math.isinf(float(u)) and float(u) == 0) else 1)
+            for u in P0.ub]
+
+
+def _kept(P0, R):
+    nv = len(P0.ub)
+    if R.linear.shape[0] == nv:
+        return list(range(nv))
+    cone = {int(i) for q in P0.qmat for i in q}
+    return [j for j in range(nv) if j not in cone]
+
+
+def _nz(a):
+    return isinstance(a, SymReal) or a != 0
+
+
+def conic_clauses():
+    def fwd(ns, R):
+        P0 = _Prog(ns["before"])
+        x = ns["x"]
+        s = _signs(P0)
+        w = [s[j] * x[j] for j in _kept(P0, R)]
+        from ..sym import p_implies
+        return p_implies(D.feas(P0, x), D.dual_feas(R, w))
+
+    def bwd(ns, R):
+        from ..sym import p_implies, ctx
+        P0 = _Prog(ns["before"])
+        nv = len(P0.ub)
+        s = _signs(P0)
+        kept = _kept(P0, R)
+        w = [ctx().fresh_real(f"w{i}_") for i in range(R.linear.shape[0])]
+        if len(kept) != len(w):
+            return False
+        X = [None] * nv
+        for pos, j in enumerate(kept):
+            X[j] = s[j] * w[pos]
+        A = P0.linear
+        for q in range(nv):
+            if X[q] is not None:
+                continue
+            rows = [i for i in range(A.shape[0]) if _nz(A[i, q])]
+            if len(rows) != 1:
+                return False
+            i = rows[0]
+            rest = 0.0
+            for j in range(nv):
+                if j != q and _nz(A[i, j]):
+                    if X[j] is None:
+                        return False
+                    rest = rest + A[i, j] * X[j]
+            X[q] = (P0.const[i] - rest) / A[i, q]
+        return p_implies(D.dual_feas(R, w), D.feas(P0, X))
+
+    def objective(ns, R):
+        P0 = _Prog(ns["before"])
+        s = _signs(P0)
+        kept = _kept(P0, R)
+        h = np.asarray(R.const, dtype=object).reshape(-1)
+        if len(h) != len(kept):
+            return False
+        terms = [p_eq(h[pos] * s[j], P0.obj[j]) for pos, j in enumerate(kept)]
+        if ns.get("obj", True):
+            # a true objective: variables without a dual row must have zero cost.  With obj=False the
+            # primal "objective" is the all-ones placeholder that RoConstr.le_to_rc rescales row by row.
+            terms += [p_eq(P0.obj[q], 0) for q in range(len(s)) if q not in kept]
+        return p_and(*terms)
+
+    def frame(ns, R):
+        return D.prog_unchanged(ns["before"], ns["P"])
+
+    def wf(ns, R):
+        nr, ndv = R.linear.shape
+        ok = (len(R.const) == nr and len(R.sense) == nr and len(R.obj) == ndv and len(R.ub) == ndv and len(R.lb) == ndv
+              and len(R.vtype) == ndv and all(v == "C" for v in R.vtype) and all(sv in (0, 1) for sv in R.sense))
+        for q in list(getattr(R, "qmat", [])) + list(getattr(R, "xmat", [])):
+            ok = ok and all(0 <= int(i) < ndv for i in q) and len(set(int(i) for i in q)) == len(q)
+        return bool(ok)
+
+    return [post("result-feasible-for-dual-of-dual(P feasible => dual-of-R feasible)", fwd),
+            post("dual-of-result-no-larger-than-primal(dual-of-R feasible => P feasible)", bwd),
+            post("objective-matches", objective), post("frame-primal-unchanged", frame), post("well-formed", wf)]
+
+
+def _lin(c, x, n, name, idx=None):
+    """a . x[idx] + b with fresh a, b (diagonal pattern keeps path forking small)."""
+    a = sym_array(c, (n,), name + "a")
+    b = sym_array(c, (n,), name + "b")
+    return a * x + b
+
+
+CONIC = {}
+
+
+def conic(name):
+    def deco(f):
+        CONIC[name] = f
+        return f
+    return deco
+
+
+def _det(c, build):
+    """Deterministic model through the ro front end; returns (layer model, obj flag)."""
+    m = ro.Model()
+    x = m.dvar(2)
+    cost = sym_array(c, (2,), "c")
+    m.min(cost @ x)
+    build(c, m, x)
+    m.do_math()
+    return m.rc_model, True
+
+
+@conic("det-norm2")
+def _(c):
+    def build(c, m, x):
+        k = c.fresh_real("k")
+        c.assume(k > 0)
+        m.st(k * rsome.norm(_lin(c, x, 2, "in"), 2) <= c.fresh_real("d") * x[0] + c.fresh_real("e"))
+    return _det(c, build)
+
+
+@conic("det-norm2-bounds")
+def _(c):
+    def build(c, m, x):
+        m.st(rsome.norm(x, 2) <= c.fresh_real("e"))
+        m.st(x <= c.fresh_real("u"), x[0] >= 0)
+    return _det(c, build)
+
+
+@conic("det-square")
+def _(c):
+    def build(c, m, x):
+        m.st(rsome.square(_lin(c, x, 2, "in")) <= c.fresh_real("d") * x + c.fresh_real("e"))
+    return _det(c, build)
+
+
+@conic("det-sumsqr")
+def _(c):
+    def build(c, m, x):
+        m.st(rsome.sumsqr(_lin(c, x, 2, "in")) <= c.fresh_real("d") * x[1] + c.fresh_real("e"))
+    return _det(c, build)
+
+
+@conic("det-abs-norm1-norminf")
+def _(c):
+    def build(c, m, x):
+        m.st(abs(_lin(c, x, 2, "in")) <= c.fresh_real("e"))
+        m.st(rsome.norm(x, 1) <= c.fresh_real("f"), rsome.norm(x, "inf") <= c.fresh_real("g"))
+    return _det(c, build)
+
+
+@conic("det-rsocone")
+def _(c):
+    def build(c, m, x):
+        y = m.dvar()
+        m.st(rsome.rsocone(x, y, c.fresh_real("e") + 0 * y), y >= 0)
+    return _det(c, build)
+
+
+def _sup(c, build):
+    m = ro.Model()
+    z = m.rvar(2)
+    sup = m.sup_model
+    sup.reset()
+    for k in build(c, m, z):
+        sup.st(k)
+    sup.do_math(obj=False)
+    return sup, False
+
+
+@conic("set-ball")
+def _(c):
+    return _sup(c, lambda c, m, z: [rsome.norm(z, 2) <= c.fresh_real("r")])
+
+
+@conic("set-box-ball")
+def _(c):
+    return _sup(c, lambda c, m, z: [z <= c.fresh_real("u"), z >= c.fresh_real("l"), rsome.norm(z - sym_array(c, (2,), "z0"), 2) <= c.fresh_real("r")])
+
+
+@conic("set-ellipsoid")
+def _(c):
+    return _sup(c, lambda c, m, z: [rsome.sumsqr(sym_array(c, (2,), "a") * z) <= c.fresh_real("r")])
+
+
+@conic("set-budget")
+def _(c):
+    return _sup(c, lambda c, m, z: [rsome.norm(z, 1) <= c.fresh_real("g"), rsome.norm(z, "inf") <= c.fresh_real("h")])
+
+
+@conic("set-polytope")
+def _(c):
+    return _sup(c, lambda c, m, z: [sym_array(c, (2,), "a") @ z <= c.fresh_real("b"), z >= 0, z[0] + z[1] == c.fresh_real("t")])
+
+
+@conic("set-square")
+def _(c):
+    return _sup(c, lambda c, m, z: [rsome.square(z) <= c.fresh_real("r"), z[0] <= 0])
+
+
+@conic("det-exp")
+def _(c):
+    def build(c, m, x):
+        m.st(rsome.exp(_lin(c, x, 2, "in")) <= c.fresh_real("d") * x + c.fresh_real("e"))
+    return _det(c, build)
+
+
+@conic("det-log")
+def _(c):
+    def build(c, m, x):
+        m.st(rsome.log(_lin(c, x, 2, "in")) >= c.fresh_real("d") * x[0] + c.fresh_real("e"))
+    return _det(c, build)
+
+
+@conic("det-entropy-bounds")
+def _(c):
+    def build(c, m, x):
+        m.st(rsome.entropy(x) >= c.fresh_real("e"), x <= c.fresh_real("u"))
+    return _det(c, build)
+
+
+@conic("det-expcone-norm2")
+def _(c):
+    def build(c, m, x):
+        y = m.dvar()
+        m.st(rsome.expcone(y, x[0], x[1]), rsome.norm(x, 2) <= c.fresh_real("r"))
+    return _det(c, build)
+
+
+@conic("set-kl")
+def _(c):
+    return _sup(c, lambda c, m, z: [rsome.kldiv(z, 0.5, c.fresh_real("r")), z.sum() == 1])
+
+
+@conic("set-exp-ball")
+def _(c):
+    return _sup(c, lambda c, m, z: [rsome.exp(z).sum() <= c.fresh_real("r"), rsome.norm(z, 2) <= c.fresh_real("g")])
+
+
+def _ro(c, build):
+    m = ro.Model()
+    x = m.dvar(2)
+    z = m.rvar(2)
+    cost = sym_array(c, (2,), "c")
+    m.min(cost @ x)
+    build(c, m, x, z)
+    m.do_math()
+    return m.rc_model, True
+
+
+@conic("ro-box")
+def _(c):
+    def build(c, m, x, z):
+        m.st(((x * z).sum() <= c.fresh_real("e")).forall(z <= 1, z >= -1))
+    return _ro(c, build)
+
+
+@conic("ro-ball")
+def _(c):
+    def build(c, m, x, z):
+        m.st(((x * z).sum() + x[0] <= c.fresh_real("e")).forall(rsome.norm(z, 2) <= c.fresh_real("r")))
+    return _ro(c, build)
+
+
+@conic("ro-ball-exp")
+def _(c):
+    def build(c, m, x, z):
+        m.st(((x * z).sum() <= c.fresh_real("e")).forall(rsome.norm(z, 2) <= c.fresh_real("r")))
+        m.st(rsome.exp(x[0]) <= c.fresh_real("g"))
+    return _ro(c, build)
+
+
+@conic("ro-kl")
+def _(c):
+    def build(c, m, x, z):
+        m.st(((x * z).sum() <= c.fresh_real("e")).forall(rsome.kldiv(z, 0.5, c.fresh_real("r")), z.sum() == 1))
+    return _ro(c, build)
+
+
+def _mix(c, build):
+    from ..harness import dro
+    m = dro.Model(3)
+    z = m.rvar(2)
+    fset = m.ambiguity()
+    build(c, m, fset, z)
+    fset.mix_support(primal=True)
+    return fset.mix_model, False
+
+
+@conic("mix-plain")
+def _(c):
+    return _mix(c, lambda c, m, f, z: f.exptset(rsome.E(z) <= c.fresh_real("u"), rsome.E(z) >= c.fresh_real("l")))
+
+
+@conic("mix-prob-norm2")
+def _(c):
+    return _mix(c, lambda c, m, f, z: f.probset(rsome.norm(m.p - 1 / 3, 2) <= c.fresh_real("r")))
+
+
+@conic("mix-prob-kl")
+def _(c):
+    return _mix(c, lambda c, m, f, z: f.probset(rsome.kldiv(m.p, 1 / 3, c.fresh_real("r"))))
+
+
+@conic("mix-prob-norm2-kl")
+def _(c):
+    return _mix(c, lambda c, m, f, z: f.probset(rsome.norm(m.p - 1 / 3, 2) <= c.fresh_real("r"),
+                                                rsome.kldiv(m.p, 1 / 3, c.fresh_real("k"))))
+
+
+@conic("mix-exp-norm2")
+def _(c):
+    return _mix(c, lambda c, m, f, z: (f[0].exptset(rsome.norm(rsome.E(z), 2) <= c.fresh_real("r")),
+                                       f.probset(m.p <= c.fresh_real("q"))))
+
+
+def conic_dual(name):
+    def setup(c):
+        layer, objflag = CONIC[name](c)
+        P = layer.primal
+        nv = P.linear.shape[1]
+        x = arr([c.fresh_real(f"x{j}_") for j in range(nv)])
+        return {"layer": layer, "P": P, "before": D.snapshot_prog(P), "x": x, "obj": objflag}
+    obs, _ = check_function("rsome.gcp:Model.do_math(primal=False)", setup,
+                            lambda ns: ns["layer"].do_math(primal=False, obj=ns["obj"]), conic_clauses(),
+                            mode="D", label=name, bounded=True, max_paths=600)
+    return obs
+
+
 def has_sym_ctx(c):
     from ..sym import PathCtx
     return isinstance(c, PathCtx)
@@ -170,4 +505,6 @@ def run_job(job):
         return out
     if job["kind"] == "lp":
         return lp_dual(job["nv"], job["m"], job["kinds"])
+    if job["kind"] == "conic":
+        return conic_dual(job["model"])
     raise ValueError(job["kind"])
